@@ -189,6 +189,14 @@ template <size_t K> static bool run(const std::string& op, const A& a, O& o) {
     else if (op == "smodn") { S x = s(0); mod_n(x, s(1)); os(x); }
     else if (op == "smodn2") { S x; x.Value = junk<K>(); S2 w = toS<K + 1>(a.z(0)); mod_n(x, w, s(1)); os(x); }
     else if (op == "sext") { S2 w(s(0)); os2(w); }
+    // ---- rint wrappers, every form (named / operator / in place): all results of one line must agree
+    else if (op == "ssub") { S x; x.Value = junk<K>(); sub(x, s(0), s(1)); os(x); os(s(0) - s(1)); S y = s(0); y -= s(1); os(y); S z = s(0); sub(z, s(1)); os(z); }
+    else if (op == "saddeq") { S y = s(0); y += s(1); os(y); S z = s(0); add(z, s(1)); os(z); S w = s(0); w *= s(1); os(w); S v = s(0); mul(v, s(1)); os(v); }
+    else if (op == "sneg") { os(-s(0)); S y = s(0); neg(y); os(y); os(~s(0)); }
+    else if (op == "sbit") { os(s(0) & s(1)); os(s(0) | s(1)); os(s(0) ^ s(1)); S x = s(0); x &= s(1); os(x); S y = s(0); y |= s(1); os(y); S z = s(0); z ^= s(1); os(z); }
+    else if (op == "sshl") { os(s(0) << a.l(1)); S x = s(0); x <<= a.l(1); os(x); }
+    else if (op == "sshr") { os(s(0) >> a.l(1)); S x = s(0); x >>= a.l(1); os(x); }
+    else if (op == "sdiveq") { S x = s(0); x /= s(1); os(x); S y = s(0); y %= s(1); os(y); }
     else return false;
     return true;
 }
@@ -341,6 +349,27 @@ static void generate(bool thorough, uint64_t seed) {
             if (i % 3 == 0) { Z p = g.sval(K), q = g.sval(K); const char* f = sg[(i / 3) % 6];
                               if (std::string(f) == "saddmul") emit_case(f, K, {g.sval(K), p, q}); else emit_case(f, K, {p, q}); }
             if (i % 6 == 1) emit_case("slsq", K, {g.sval(K)});
+            if (i % 5 == 2) { Z p = g.sval(K), q = g.sval(K); if (i % 10 == 2) q = -p; if (i % 20 == 7) q = p;
+                              const char* f = (i / 5) % 3 == 0 ? "ssub" : (i / 5) % 3 == 1 ? "saddeq" : "sbit"; emit_case(f, K, {p, q}); }
+            if (i % 9 == 3) emit_case("sneg", K, {g.sval(K)});
+            if (i % 4 == 2) { emit_case((i & 4) ? "sshl" : "sshr", K, {g.sval(K), Z(g.shiftcount(K))}); }
+            if (i % 32 == 6) { emit_case("sshr", K, {g.sval(K), pow2(63)}); emit_case("sshr", K, {Z(-1 - g.val(K) % pow2(nb - 1)), pow2(32 + g.rng.below(32))}); }
+        }
+        // the signed boundary grid: every pair from {0, 1, -1, 2, -2, MAX, MAX-1, MIN, MIN+1, 2^(bits/2), -2^(bits/2)} through every wrapper
+        {
+            Z MAXS = pow2(nb - 1) - 1, MINS = -pow2(nb - 1);
+            std::vector<Z> grid = {Z(0), Z(1), Z(-1), Z(2), Z(-2), MAXS, Z(MAXS - 1), MINS, Z(MINS + 1), pow2(nb / 2), Z(-pow2(nb / 2))};
+            for (const Z& p : grid) {
+                emit_case("sneg", K, {p}); emit_case("slsq", K, {p}); emit_case("sext", K, {p});
+                unsigned long cnt[] = {0, 1, 63, 64, nb / 2, nb - 1, nb, nb + 1};
+                for (unsigned long d : cnt) { emit_case("sshl", K, {p, Z(d)}); emit_case("sshr", K, {p, Z(d)}); }
+                for (const Z& q : grid) {
+                    emit_case("ssub", K, {p, q}); emit_case("saddeq", K, {p, q}); emit_case("sbit", K, {p, q}); emit_case("scmp", K, {p, q});
+                    emit_case("sadd", K, {p, q}); emit_case("smulop", K, {p, q}); emit_case("slmul", K, {p, q});
+                    if (q != 0 && !(p == MINS && q == -1)) emit_case("sdivq", K, {p, q});
+                    if (q > 1) { emit_case("sdivr", K, {p, q}); emit_case("sdivop", K, {p, q}); emit_case("sdiveq", K, {p, q}); }
+                }
+            }
         }
         // comparisons with 64-bit scalars of both signs around 2^31, 2^32, 2^63 (ruint and rint, scalar on either side)
         {
@@ -471,6 +500,16 @@ static void generate(bool thorough, uint64_t seed) {
                 Z sb = g.sval(K); mpz_gcd(gg.get_mpz_t(), sb.get_mpz_t(), sm.get_mpz_t());
                 if (gg == 1) emit_case("sinvmod", K, {sb, sm});
             }
+        }
+        // bezout_mod on pairs that are NOT coprime and on the boundary pairs (1, 1), (1, d), (c, 1), c = d, c | d, d | c, 2^bits - 1
+        {
+            Z f = g.val(K) % pow2(nb / 2) + 2, p = g.val(K) % pow2(nb / 2 - 1) + 1, q = g.val(K) % pow2(nb / 2 - 1) + 1;
+            Z r1 = g.nonzero(K);
+            emit_case("bezout", K, {p * f, q * f});
+            emit_case("bezout", K, {Z(1), Z(1)}); emit_case("bezout", K, {Z(1), r1}); emit_case("bezout", K, {r1, Z(1)});
+            emit_case("bezout", K, {r1, r1}); emit_case("bezout", K, {p, p * f}); emit_case("bezout", K, {p * f, p});
+            emit_case("bezout", K, {Z(M - 1), r1}); emit_case("bezout", K, {r1, Z(M - 1)}); emit_case("bezout", K, {Z(M - 1), Z(M - 2)});
+            emit_case("bezout", K, {Z(2), Z(M - 1)}); emit_case("bezout", K, {pow2(nb - 1), Z(M - 1)});
         }
         for (unsigned i = 0; i < std::max(K >= 11 ? 1u : 2u, (nslow * 2) >> (2 * sh)); i++) {
             Z m = (i % 3 == 0) ? Z(1 + g.rng.below(3)) : g.nonzero(K);
